@@ -137,8 +137,11 @@ impl FromStr for Allele {
             return Err(ParseError::Empty);
         }
 
-        let phasing = parse_phasing(&s[..1])?;
-        let position = parse_position(&s[1..])?;
+        let (raw_phasing, raw_position) =
+            s.split_at_checked(1).ok_or(ParseError::InvalidPhasing)?;
+
+        let phasing = parse_phasing(raw_phasing)?;
+        let position = parse_position(raw_position)?;
 
         Ok(Allele::new(position, phasing))
     }
